@@ -16,8 +16,9 @@ VARIABLES order,    \* Seq of <<kind, name>> as last written
           placedX,  \* the placed children of the kinds outside the placement model (IF_DATA, USER_RIGHTS): set of <<kind, name>>
           loadedAll,\* every direct child of the MODULE as loaded (also optional singletons, IF_DATA, USER_RIGHTS,
                     \* which the placement model leaves out): Seq of <<kind, name>> in written order
+          perturbed,\* a child was removed through the API since the load (children that share a uid may have changed places)
           l
-ivars == <<order, placedI, placedX, loadedAll, l>>
+ivars == <<order, placedI, placedX, loadedAll, perturbed, l>>
 Ev == Rec[l]
 
 IsSubOrder(old, new) == SelectSeq(new, LAMBDA x : x \in Range(old)) = old
@@ -48,30 +49,47 @@ ExtrasSortNew(after) ==
 NewlyPlacedX(after) == {x \in Range(after) : x[1] \in ExtraKinds /\ x \notin placedX /\ \E p \in placedX : p[1] = x[1]}
 AllOf(ev) == IF "all" \in DOMAIN ev THEN ev.all ELSE <<>>
 
+\* IdealSortNew for histories with removals: ItemList::swap_remove and the next sort may permute placed children of one kind
+\* that share a uid, so the stable order is demanded between children of different kinds only; a new child still goes
+\* behind the last placed child of its kind
+IdealSortNewLoose(EE, before, after) ==
+    \A pb \in {Inv(before)}, pa \in {Inv(after)}, P \in {{i \in Range(before) : EE[i].uid # 0}} :
+    /\ Range(after) = Range(before) /\ Len(after) = Len(before)
+    /\ \A a, b \in P : (EE[a].kind # EE[b].kind \/ EE[a].cmt \/ EE[b].cmt) => ((pb[a] < pb[b]) <=> (pa[a] < pa[b]))
+    /\ \A e \in Range(before) \ P :
+         \A sameKind \in {{p \in P : ~EE[p].cmt /\ EE[p].kind = EE[e].kind}} :
+         IF sameKind = {}
+         THEN \A x \in P : pa[x] < pa[e]
+         ELSE \A L \in {CHOOSE p \in sameKind : \A q \in sameKind : pa[q] <= pa[p]} :
+              /\ pa[L] < pa[e]
+              /\ \A x \in Range(before) : (pa[L] < pa[x] /\ pa[x] < pa[e]) => (x \notin P /\ EE[x].kind = EE[e].kind)
+
 ILoad == /\ l <= Len(Rec) /\ Ev.ev \in {"load", "state"}
          /\ order' = Ev.written
          /\ placedI' = IF Ev.ev = "load" THEN Range(Ev.written) ELSE Range(Ev.placed)
          /\ loadedAll' = IF "all" \in DOMAIN Ev THEN Ev.all ELSE <<>>
          /\ placedX' = {x \in Range(AllOf(Ev)) : x[1] \in ExtraKinds}
+         /\ perturbed' = FALSE
          /\ l' = l + 1
 IInsert == /\ l <= Len(Rec) /\ Ev.ev \in {"push_new", "merge", "merge_in"}
            /\ ("panic" \in DOMAIN Ev => Ev.panic = FALSE)
            /\ IsSubOrder(order, Ev.written)
            /\ KeepsLoaded
            /\ order' = Ev.written
-           /\ UNCHANGED <<placedI, placedX, loadedAll>>
+           /\ UNCHANGED <<placedI, placedX, loadedAll, perturbed>>
            /\ l' = l + 1
 ISort == /\ l <= Len(Rec) /\ Ev.ev = "sort_new_items"
          /\ Ev.panic = FALSE
          /\ Len(Ev.written) = Len(order) /\ Range(Ev.written) = Range(order)
-         /\ IdealSortNew(EEof(order), [i \in 1..Len(order) |-> i],
-                         [j \in 1..Len(order) |-> IdxIn(order, Ev.written[j])])
+         /\ IF perturbed
+            THEN IdealSortNewLoose(EEof(order), [i \in 1..Len(order) |-> i], [j \in 1..Len(order) |-> IdxIn(order, Ev.written[j])])
+            ELSE IdealSortNew(EEof(order), [i \in 1..Len(order) |-> i], [j \in 1..Len(order) |-> IdxIn(order, Ev.written[j])])
          /\ KeepsLoaded
          /\ ExtrasSortNew(AllOf(Ev))
          /\ order' = Ev.written
          /\ placedI' = placedI \cup {x \in Range(order) : \E p \in placedI : p[1] = x[1]}
          /\ placedX' = placedX \cup NewlyPlacedX(AllOf(Ev))
-         /\ UNCHANGED loadedAll
+         /\ UNCHANGED <<loadedAll, perturbed>>
          /\ l' = l + 1
 \* C14: sort() - same elements (comments may go), grouped by kind, ascending names in a kind
 ISortFull == /\ l <= Len(Rec) /\ Ev.ev = "sort"
@@ -83,16 +101,33 @@ ISortFull == /\ l <= Len(Rec) /\ Ev.ev = "sort"
              /\ placedI' = Range(Ev.written)
              /\ loadedAll' = IF "all" \in DOMAIN Ev THEN Ev.all ELSE <<>>
              /\ placedX' = {x \in Range(AllOf(Ev)) : x[1] \in ExtraKinds}
+             /\ perturbed' = FALSE
              /\ l' = l + 1
+\* one child is removed through the API (ItemList::swap_remove: the last element of the list takes the place of the removed
+\* one, so children that share a uid - or have none yet - may change places): nothing else goes, nothing comes; the order that
+\* is written now is the reference for what follows
+Without(seq, x) == SelectSeq(seq, LAMBDA y : y # x)
+IRemove == /\ l <= Len(Rec) /\ Ev.ev = "remove"
+           /\ LET x == <<Ev.kind, Ev.name>>
+                  xa == <<Ev.kind, Ev.name_text>> IN
+              /\ x \in Range(order)
+              /\ Len(Ev.written) = Len(order) - 1 /\ Range(Ev.written) = Range(order) \ {x}
+              /\ Range(AllOf(Ev)) \cap Range(loadedAll) = Range(loadedAll) \ {xa}
+              /\ order' = Ev.written
+              /\ placedI' = placedI \ {x}
+              /\ loadedAll' = SelectSeq(AllOf(Ev), LAMBDA y : y \in Range(loadedAll))
+              /\ UNCHANGED placedX
+              /\ perturbed' = TRUE
+           /\ l' = l + 1
 IWrite == /\ l <= Len(Rec) /\ Ev.ev = "write"
           /\ Ev.written = order
           /\ KeepsLoaded
-          /\ UNCHANGED <<order, placedI, placedX, loadedAll>>
+          /\ UNCHANGED <<order, placedI, placedX, loadedAll, perturbed>>
           /\ l' = l + 1
 
-IdealInit == order = <<>> /\ placedI = {} /\ placedX = {} /\ loadedAll = <<>> /\ l = 1
+IdealInit == order = <<>> /\ placedI = {} /\ placedX = {} /\ loadedAll = <<>> /\ perturbed = FALSE /\ l = 1
              /\ E = <<>> /\ lists = [k \in Kinds |-> <<>>] /\ panic = FALSE /\ last = [op |-> "init"]
-IdealNext == (ILoad \/ IInsert \/ ISort \/ ISortFull \/ IWrite) /\ UNCHANGED vars
+IdealNext == (ILoad \/ IInsert \/ ISort \/ ISortFull \/ IRemove \/ IWrite) /\ UNCHANGED vars
 IdealTraceSpec == IdealInit /\ [][IdealNext]_<<ivars, vars>>
 
 TraceAccepted ==
